@@ -199,8 +199,8 @@ using namespace boost::gil;
 static std::string g_case;
 static void on_death() { std::fprintf(stderr, "\nFAILING INPUT: %s\n", g_case.c_str()); }
 static long g_cases = 0, g_fail = 0; static std::string g_first, g_desc;
-static void on_alarm(int) { std::printf("\nFAILING INPUT: %s\nREPRODUCED: the decoder did not terminate within 10 s on this input\n", g_case.c_str());
-  std::printf("CLAUSE rle_window FAIL 1 the decoder terminates on every crafted file\nFAILCASE no termination within 10 s on %s\nNATIVE cases=%ld window=stopped by the watchdog\n", g_case.c_str(), g_cases); std::fflush(stdout); _exit(1); }
+static void on_alarm(int) { std::printf("\nFAILING INPUT: %s\nREPRODUCED: the decoder did not terminate within 120 s on this input\n", g_case.c_str());
+  std::printf("CLAUSE rle_window FAIL 1 the decoder terminates on every crafted file\nFAILCASE no termination within 120 s on %s\nNATIVE cases=%ld window=stopped by the watchdog\n", g_case.c_str(), g_cases); std::fflush(stdout); _exit(1); }
 static void on_abort(int) { std::printf("\nFAILING INPUT: %s\nREPRODUCED: an assertion of the real code failed (abort) on this input\n", g_case.c_str());
   std::printf("CLAUSE rle_window FAIL 1 no assertion of the real code fails on a crafted file\nFAILCASE assertion failure (abort) on %s\nNATIVE cases=%ld window=stopped by abort()\n", g_case.c_str(), g_cases); std::fflush(stdout); _exit(1); }
 static void le16(std::string& s, unsigned v) { s.push_back((char)(v & 255)); s.push_back((char)((v >> 8) & 255)); }
@@ -219,7 +219,7 @@ static void feed(std::string const& bytes, int w, int h, int tx, int ty, int dw,
   const int F = 3; rgb8_image_t frame(dw + 2 * F, dh + 2 * F); rgb8_pixel_t canary(0xA5, 0x5A, 0xC3); fill_pixels(view(frame), canary);
   rgb8_view_t dst = subimage_view(view(frame), F, F, dw, dh);
   std::istringstream in(bytes, std::ios::binary);
-  alarm(10);
+  alarm(120);
   try { if (use_file_dims) read_view(in, dst, bmp_tag()); else read_view(in, dst, image_read_settings<bmp_tag>(point_t(tx, ty), point_t(dw, dh))); } catch (std::exception const&) {}
   alarm(0);
   for (int y = 0; y < frame.height(); y++) for (int x = 0; x < frame.width(); x++) { bool inside = x >= F && x < F + dw && y >= F && y < F + dh;
